@@ -97,6 +97,23 @@ fn c06(tier: Tier, seed: u64) -> i32 {
             cfg.faults.push(crate::density::Fault { at: r.below(400), kind });
         }
     });
+    // trajectories without a single leapfrog (maxdepth 0, or a model without parameters): the acceptance statistic
+    // of such a draw is undefined; the step size must stay a number and the kernel frozen all the same
+    let n5 = ctx.n(1500, 40_000);
+    let opts5 = SwarmOpts { presets: crate::swarm::NUTS_PRESETS.to_vec(), allow_tune0: true, max_tune: 40, max_draws: 8, max_dim: 4, allow_hard_targets: false, ..Default::default() };
+    chain_batch(&mut ctx, "C06", "zero_step_trajectories", "NUTS presets with maxdepth = 0 (every draw returns its start) or a model of dimension 0, all step-size methods, num_tune 0..40: exactly num_tune tuning draws, finite positive step sizes, frozen kernel after warmup", n5, opts5, |cfg, r| {
+        if r.chance(0.6) {
+            match &mut cfg.preset {
+                crate::chain::Preset::DiagNuts(s) => { s.maxdepth = 0; s.mindepth = 0 }
+                crate::chain::Preset::LowRankNuts(s) => { s.maxdepth = 0; s.mindepth = 0 }
+                crate::chain::Preset::FlowNuts(s) => { s.maxdepth = 0; s.mindepth = 0 }
+                _ => {}
+            }
+        } else {
+            cfg.target = crate::density::std_normal(0);
+            cfg.init = vec![];
+        }
+    });
     // every fault position of small runs: the boundary and the frozen kernel must hold whatever evaluation fails
     let n4 = ctx.n(150, 6000);
     let opts4 = SwarmOpts { allow_tune0: false, max_tune: 10, max_draws: 4, max_dim: 3, allow_hard_targets: false, ..Default::default() };
@@ -344,7 +361,7 @@ fn c12(tier: Tier, seed: u64) -> i32 {
 fn c13(tier: Tier, seed: u64) -> i32 {
     let mut ctx = Ctx::new("C13", tier, seed);
     let n = ctx.n(96, 3000);
-    ctx.run_batch("enumerate_faults", "per base run (<=3 chains, <=6 draws, scripts with flush/inspect/pause, wait or abort ending): EVERY fault position is injected in turn — an unrecoverable density error at every evaluation index of every chain (strided beyond 48 per chain), recoverable-class faults at every third, a record_sample error at every (chain, draw), chain/trace finalize, flush, inspect, new_trace, initialize_trace_for_chain, Model::math for controller and each chain, init_position error, first 1/7/all initialisation attempts failing — each under 2 seeded schedules; non-trivial = a fatal fault fired (recorded by the stub)", n, |rs, _| {
+    ctx.run_batch("enumerate_faults", "per base run (<=3 chains, <=6 draws, scripts with flush/inspect/pause, wait or abort ending): EVERY fault position is injected in turn — an unrecoverable density error at every evaluation index of every chain (strided beyond 48 per chain), recoverable-class faults at every third, a record_sample error at every (chain, draw), chain/trace finalize, flush, inspect, new_trace, initialize_trace_for_chain, Model::math for controller and each chain, init_position error, first 1/7/all initialisation attempts failing — each under 2 seeded schedules; non-trivial = a fatal fault fired (recorded by the stub)", n, |rs, i| {
         let mut sc = gen_sched(rs, &GenOpts { prop: "C13", style: ScriptStyle::Mixed, tier, allow_abort: true, natural_divergences: false });
         let mut r = Prng::sub(rs, "tweak");
         // small base runs so that every position can be enumerated
@@ -357,10 +374,13 @@ fn c13(tier: Tier, seed: u64) -> i32 {
             crate::chain::Preset::LowRankMclmc(s) => s.num_chains = nc,
             crate::chain::Preset::FlowMclmc(s) => s.num_chains = nc,
         }
-        let nt = sc.preset.num_tune().min(3);
+        // every eighth base run is a run of zero draws (a chain that fails before its first draw must be
+        // reported all the same), every eighth one has a single draw
+        let (cap_t, cap_d) = match i % 8 { 7 => (0, 0), 3 => (if r.chance(0.5) { 1 } else { 0 }, 1), _ => (3, 3) };
+        let nt = sc.preset.num_tune().min(cap_t);
         sc.preset.set_num_tune(nt);
         fix_early_window(&mut sc.preset, nt);
-        let nd = sc.preset.num_draws().min(3);
+        let nd = sc.preset.num_draws().min(cap_d);
         sc.preset.set_num_draws(nd);
         sc.n_schedules = 2;
         sc.enumerate_faults = true;
@@ -667,6 +687,17 @@ fn c03(tier: Tier, seed: u64) -> i32 {
             crate::chain::Preset::LowRankNuts(s) => s.extra_doublings = 0,
             crate::chain::Preset::FlowNuts(s) => s.extra_doublings = 0,
             _ => {}
+        }
+        // a tight energy limit in a third of the runs: trajectories whose error creeps over the limit in several
+        // steps, none of which is large alone
+        if r.chance(0.33) {
+            let mee = *r.pick(&[0.05, 0.2, 1.0, 3.0]);
+            match &mut cfg.preset {
+                crate::chain::Preset::DiagNuts(s) => s.max_energy_error = mee,
+                crate::chain::Preset::LowRankNuts(s) => s.max_energy_error = mee,
+                crate::chain::Preset::FlowNuts(s) => s.max_energy_error = mee,
+                _ => {}
+            }
         }
         if r.chance(0.4) {
             for _ in 0..r.range(1, 4) {
@@ -1047,6 +1078,7 @@ pub fn gen_stationary(rs: u64, prop: &str, i: u64, quick: bool) -> crate::props_
         mindepth: 0,
         extra_doublings: 0,
         n_particles, k: *r.pick(&[1u64, 3, 6]), seed: r.next_u64(),
+        equal_weight_selection: false,
     }
 }
 
@@ -1066,6 +1098,20 @@ fn c01(tier: Tier, seed: u64) -> i32 {
     let n2 = ctx.n(96, 400);
     let quick = tier == Tier::Quick;
     ctx.run_batch("stationarity", "invariance, statistically: N independent particles start from exact i.i.d. draws of the target (Gaussians incl. correlated, Student-t, log-gamma, banana; dimension 1..4) and make 1/3/6 transitions of the real nuts::draw with a fixed transformation (identity, mismatched diagonal, low-rank), step size 0.1..1.2, maxdepth 1..6, default tree options; the particles must still be distributed as the target: per coordinate and for the log density the fraction below the 5/25/50/75/95% quantiles of an independent reference sample is binomial (z statistic, critical 6). Holds for any reversible kernel whatever its mixing speed; a biased selection, direction or acceptance rule shows as a drift", n2, |rs, i| gen_stationary(rs, "C01", i, quick));
+    let n3 = ctx.n(12, 120);
+    ctx.run_batch("stationarity_equal_weights", "energy-conserving orbits: ExactNormal kinetic energy on a standard normal with the identity transformation (dimension 1..4, step size 0.1..0.5, maxdepth 2..5): every state of a trajectory has the same weight up to rounding - the case in which the scripted batch must skip the selection law as a weight tie. Statistically, over 20000 (thorough 60000) particles x 3 transitions: in complete trees of depth >= 2 the draw comes from the last accepted doubling (acceptance min(1, w_new/w_old) = 1) and lies in the newer half of that sub-tree with probability 1/2 (uniform multinomial selection; z statistic, critical 6), besides the invariance statistics", n3, |rs, i| {
+        let mut sc = gen_stationary(rs, "C01", i, quick);
+        let mut r = Prng::sub(rs, "equal_weights");
+        let d = r.usize_in(1, 4);
+        sc.target = crate::density::std_normal(d);
+        sc.transform = crate::props_c01::TransformSpec::Diag { stds: vec![1.0; d], mean: vec![0.0; d] };
+        sc.exact_normal = true;
+        sc.step_size = *r.pick(&[0.1, 0.2, 0.3, 0.5]);
+        sc.maxdepth = *r.pick(&[2u64, 3, 4, 5]);
+        sc.k = 3;
+        sc.equal_weight_selection = true;
+        sc
+    });
     ctx.finish("exploration", components_direct_drive(), vec![
         "given R1-R3 the implementation's kernel is the reference kernel on the explored scenarios; detailed balance of the reference kernel is the algebra of DESIGN.md Appendix A".into(),
         "tolerance for 'same states' 1e-7 x trajectory length (forward and backward integration are not bitwise inverse)".into(),
